@@ -165,7 +165,7 @@ def main(mod, argv=None):
 
     if n_unknown:
         broken.append("%d case(s): exact oracle certificate rejected by the Coq checker (code 9)" % n_unknown)
-    if broken and rep.violations == 0 and not rep.known:
+    if broken and rep.violations == 0:      # known findings never hide a broken obligation
         rep.violation({"broken": True}, {"broken_obligations": broken,
                       "note": "a proof obligation, the translator or the correspondence machinery no longer "
                               "checks; no failing input found"}, no_input=True)
